@@ -192,11 +192,29 @@ def _inactive(ctx, rule='C08.1'):
             N.txt(n.ast.targets[0]) == 'expires_at']
     ctx.require(defs, 'definition of expires_at')
     for node in defs:
-        val = node.ast.value
+        val = K.rexpr(func, node.ast.value)
+        # the definition case by case: a conditional expression is two
+        # definitions, each under its side of the test
+        cases = [(set(facts[node]), val)]
+        if isinstance(val, ast.IfExp):
+            cnz = N.Normaliser()
+            cases = [
+                (set(facts[node]) | set(K._outcome_atoms(cnz, val.test,
+                                                         True)), val.body),
+                (set(facts[node]) | set(K._outcome_atoms(cnz, val.test,
+                                                         False)),
+                 val.orelse)]
+        for have_c, cval in cases:
+            _expiry_case(ctx, rule, func, node, have_c, cval, sincevar)
+    return cell, nz
+
+
+def _expiry_case(ctx, rule, func, node, have, val, sincevar):
+    if True:
         if isinstance(val, ast.Constant):
             none = any(f.key[0] == 'is' and f.key[3] and
                        f.key[1].endswith('.data_retention_timeout') and
-                       f.key[2] == 'None' for f in facts[node])
+                       f.key[2] == 'None' for f in have)
             ctx.ob(rule, func, node, val.value == 0 and none,
                    "'no retention' means immediately (0) and only then")
         else:
@@ -210,7 +228,6 @@ def _inactive(ctx, rule='C08.1'):
             ctx.ob(rule, func, node, ok,
                    'expiry = since + data_retention_timeout: %s' %
                    N.txt(val))
-    return cell, nz
 
 
 def _placement_guards(ctx, cell, nz):
@@ -323,15 +340,38 @@ def _presence(ctx):
                                'set(self.servers)')
 
     def is_down(expr):
-        if isinstance(expr, ast.SetComp) and len(expr.generators) == 1:
-            gen = expr.generators[0]
-            return N.txt(gen.iter) in ('self.servers',
-                                       'self.servers.keys()') and \
-                len(gen.ifs) == 1 and 'State.down' in N.txt(gen.ifs[0]) \
-                and ('is scheduler' in N.txt(gen.ifs[0]) or
-                     '==' in N.txt(gen.ifs[0])) and \
-                ' not ' not in N.txt(gen.ifs[0])
-        return False
+        """{name of every known server whose state is down}, iterating the
+        keys or the items of self.servers."""
+        if isinstance(expr, ast.Call) and K.callee_text(expr) == 'set' and \
+                len(expr.args) == 1 and isinstance(
+                    expr.args[0], (ast.GeneratorExp, ast.ListComp)):
+            expr = expr.args[0]
+        if not (isinstance(expr, (ast.SetComp, ast.GeneratorExp,
+                                  ast.ListComp)) and
+                len(expr.generators) == 1 and
+                len(expr.generators[0].ifs) == 1):
+            return False
+        gen = expr.generators[0]
+        it = N.txt(gen.iter)
+        if it in ('self.servers', 'self.servers.keys()',
+                  'six.iterkeys(self.servers)') and \
+                isinstance(gen.target, ast.Name):
+            keyvar = gen.target.id
+            srv = 'self.servers[%s]' % keyvar
+        elif it in ('self.servers.items()', 'six.iteritems(self.servers)') \
+                and isinstance(gen.target, ast.Tuple) and \
+                len(gen.target.elts) == 2:
+            keyvar, srv = [N.txt(e) for e in gen.target.elts]
+        else:
+            return False
+        cond = gen.ifs[0]
+        if N.txt(expr.elt) != keyvar or not (
+                isinstance(cond, ast.Compare) and len(cond.ops) == 1 and
+                isinstance(cond.ops[0], (ast.Is, ast.Eq))):
+            return False
+        sides = [N.txt(cond.left), N.txt(cond.comparators[0])]
+        return '%s.state' % srv in sides and any(
+            side.endswith('State.down') for side in sides)
 
     def is_present(expr):
         return N.txt(expr) in (present, 'set(%s)' % present)
@@ -422,6 +462,10 @@ def _presence(ctx):
                 defs[sub.targets[0].id] = N.txt(sub.value)
         a0 = defs.get(N.txt(call.args[0]), N.txt(call.args[0]))
         a1 = defs.get(N.txt(call.args[1]), N.txt(call.args[1]))
+        if "['state']" not in a0 or "['since']" not in a1:
+            # through further copies (a helper's result after inlining)
+            a0 = K.rtxt(adj, call.args[0])
+            a1 = K.rtxt(adj, call.args[1])
         ok = "['state']" in a0 and "['since']" in a1
         ctx.ob('C08.5', adj, node, ok,
                'restored from the stored record: state <- %s, since <- %s'
